@@ -79,6 +79,7 @@ def run(prop, log=print):
     for spec in st["units"]:
         if getattr(spec, "fragment", None) is not None:
             continue          # statement ranges have no native entry point
+        eng = runner.engine_for(st, spec)[0]
         for cfg in spec.configs():
             try:
                 obs, d = eng.verify_cfg(spec, cfg)
